@@ -334,6 +334,14 @@ class Twin:
                           {'kind': 'a call on the original changed the clone'})
                 # continue in lock-step: the clone vs the never-pickled reference twin gB (neither saw the call y)
                 gA = clone
+                if not paused and cfg['backend'] != 'none':
+                    # switching archiving on where it already is on changes nothing - in the copy as in the reference
+                    for gg in (gA, gB):
+                        try:
+                            gg.archived(True)
+                        except ValueError:
+                            pass
+                    ctx.check(gA.archived() == gB.archived(), 'C20:configuration', {'kind': 'archived(True) on the restored copy changed whether it is archived'})
                 if paused:                      # ... and switched back on in the restored copy
                     try:
                         gA.archived(True)
